@@ -8,6 +8,28 @@ VERIF = os.path.dirname(os.path.dirname(os.path.abspath(__file__)))
 
 
 def main():
+    import io
+    import sys
+
+    if "--update" in sys.argv:
+        buf = io.StringIO()
+        old = sys.stdout
+        sys.stdout = buf
+        try:
+            table()
+        finally:
+            sys.stdout = old
+        path = os.path.join(VERIF, "DESIGN.md")
+        s = open(path).read()
+        a = s.index("<!-- SEEDED-TABLE-BEGIN -->") + len("<!-- SEEDED-TABLE-BEGIN -->")
+        b = s.index("<!-- SEEDED-TABLE-END -->")
+        open(path, "w").write(s[:a] + "\n" + buf.getvalue() + s[b:])
+        print("DESIGN.md updated")
+    else:
+        table()
+
+
+def table():
     print("| id | breaks | what the change is | what it needs to manifest | which check catches it |")
     print("|---|---|---|---|---|")
     d = os.path.join(VERIF, "seeded")
